@@ -144,7 +144,8 @@ def py_side(repo):
                 if isinstance(t, ast.Attribute) and t.attr in ("argtypes", "restype") and isinstance(t.value, ast.Attribute) \
                         and isinstance(t.value.value, ast.Name) and t.value.value.id == "lsci":
                     name = t.value.attr
-                    d = decls.setdefault(name, {"file": fn})
+                    # every module loads its own library handle: a declaration holds for the module that makes it
+                    d = decls.setdefault((fn, name), {"file": fn})
                     if t.attr == "argtypes":
                         if isinstance(node.value, (ast.List, ast.Tuple)):
                             d["args"] = [pt.ty(e) for e in node.value.elts]
@@ -153,7 +154,7 @@ def py_side(repo):
                     else:
                         d["ret"] = pt.ty(node.value)
             if isinstance(node, ast.Call) and isinstance(node.func, ast.Attribute) and isinstance(node.func.value, ast.Name) and node.func.value.id == "lsci":
-                called.add(node.func.attr)
+                called.add((fn, node.func.attr))
     return structs, decls, called, pt.unknown
 
 
@@ -181,9 +182,13 @@ def run(repo, outdir):
         return "Some [%s]" % "; ".join(d["args"])
     def opt_ret(d):
         return "Some %s" % d["ret"] if "ret" in d else "None"
+    # one entry per (module, function): a function called in a module that does not declare it there is an entry
+    # without argtypes/restype (ctypes then converts nothing and reads the result as a C int)
     allnames = sorted(set(pd) | called)
+    out.append("(* one entry per module and function, in the order: " + ", ".join("%s:%s" % k for k in allnames[:6]) + ", ... *)")
     out.append("Definition py_decls : list (string * (option (list ctype) * option ctype)) :=\n  [" +
-               ";\n   ".join("(%s, (%s, %s))" % (coq_str(n), opt_args(pd.get(n, {})), opt_ret(pd.get(n, {}))) for n in allnames) + "].\n")
+               ";\n   ".join("(%s, (%s, %s))" % (coq_str(k[1]), opt_args(pd.get(k, {})), opt_ret(pd.get(k, {}))) for k in allnames) + "].\n")
+    out.append("Definition py_decl_modules : list string :=\n  [" + "; ".join(coq_str(k[0]) for k in allnames) + "].\n")
     # name map python class -> C typedef: votes from positional pairing of struct names in the
     # declared functions (same arity) and in structures of equal (case-insensitive) name
     votes = {}
@@ -195,7 +200,7 @@ def run(repo, outdir):
         if a and b:
             votes.setdefault(a, {}).setdefault(b, 0)
             votes[a][b] += 1
-    for n, d in pd.items():
+    for (_, n), d in pd.items():
         if n in cf and d.get("args") is not None and len(d["args"]) == len(cf[n][1]):
             for pa, ca in zip(d["args"], cf[n][1]):
                 vote(pa, cty(ca, enums))
@@ -218,7 +223,8 @@ def run(repo, outdir):
     changed = write_if_changed(os.path.join(outdir, "Gen_Abi.v"), "\n".join(out) + "\n")
     return {"c_structs": len(cs), "c_protos": len(cf), "py_structs": len(ps), "py_decls": len(pd), "py_called": len(called),
             "unknown_py_types": unknown, "changed": changed,
-            "py_files": {n: f for n, (f, _) in ps.items()}, "decl_files": {n: d.get("file") for n, d in pd.items()}}
+            "py_files": {n: f for n, (f, _) in ps.items()}, "decl_files": {n: d.get("file") for (_, n), d in pd.items()},
+            "decl_modules": ["%s:%s" % k for k in allnames]}
 
 
 if __name__ == "__main__":
